@@ -576,6 +576,73 @@ fn client_data_one(case: &Value) -> Vec<Finding> {
     }
     fs
 }
+// ------------------------------------------------------------------------------------------
+// client data as emitted by Client::register / Client::authenticate with caller-supplied extras,
+// including extras whose member name collides with one of the four standard members
+
+fn client_extras_cases() -> Vec<Value> {
+    let mut v = vec![json!({"client_extras": {"collide_at": null, "name": null}})];
+    for pos in 0..5usize {
+        for name in ["type", "challenge", "origin", "crossOrigin"] {
+            v.push(json!({"client_extras": {"collide_at": pos, "name": name}}));
+        }
+    }
+    v
+}
+fn client_extras_one(case: &Value) -> Vec<Finding> {
+    use passkey_client::DefaultClientDataWithExtra;
+    let c = &case["client_extras"];
+    let mut names: Vec<String> = ["androidPackageName", "zeta", "payment", "topOrigin", "appVersion"].iter().map(|s| s.to_string()).collect();
+    if let (Some(pos), Some(name)) = (c["collide_at"].as_u64(), c["name"].as_str()) {
+        names[pos as usize] = name.to_string();
+    }
+    let extras: Map<String, Value> = names.iter().enumerate().map(|(i, n)| (n.clone(), json!({"i": i, "v": [i, "x"]}))).collect();
+    let standard = ["type", "challenge", "origin", "crossOrigin"];
+    let want_tail: Vec<String> = names.iter().filter(|n| !standard.contains(&n.as_str())).cloned().collect();
+    let mut fs = vec![];
+    for op in ["register", "authenticate"] {
+        let store = Shared::new(RefStore::with(vec![seeded(&Seed { n: 1, rp: "example.com".into(), handle: Some(vec![1]), counter: None, hmac: None })]));
+        let auth = passkey_authenticator::Authenticator::new(passkey_types::ctap2::Aaguid::new_empty(), store, ScriptedUv::consenting(Log::new()));
+        let mut client = passkey_client::Client::new(auth);
+        let origin = url::Url::parse("https://example.com").unwrap();
+        let cd = DefaultClientDataWithExtra(Value::Object(extras.clone()));
+        let text = par::catch(|| {
+            if op == "register" {
+                crate::core::exec::block_on(client.register(&origin, creation_options(Reg::default()), cd)).map(|c| c.response.client_data_json.to_vec()).map_err(|e| format!("{e:?}"))
+            } else {
+                crate::core::exec::block_on(client.authenticate(&origin, request_options(Auth::default()), cd)).map(|c| c.response.client_data_json.to_vec()).map_err(|e| format!("{e:?}"))
+            }
+        });
+        let text = match text {
+            Err(p) => {
+                fs.push(Finding::new("clientdata/client/kind=panic", p, case.clone()));
+                continue;
+            }
+            Ok(Err(e)) => {
+                fs.push(Finding::new("clientdata/client/kind=ceremony-fails", e, case.clone()));
+                continue;
+            }
+            Ok(Ok(t)) => String::from_utf8_lossy(&t).to_string(),
+        };
+        let keys = match top_level_keys(&text) {
+            Ok(k) => k,
+            Err(e) => {
+                fs.push(Finding::new("clientdata/client/kind=not-json", e, case.clone()));
+                continue;
+            }
+        };
+        if keys.len() < 4 || keys[..4] != standard {
+            fs.push(Finding::new("clientdata/client/kind=first-four-members", format!("{op}: members {keys:?}"), case.clone()));
+            continue;
+        }
+        let tail: Vec<String> = keys[4..].iter().filter(|k| !standard.contains(&k.as_str())).cloned().collect();
+        if tail != want_tail {
+            fs.push(Finding::new("clientdata/client/kind=extra-member-order", format!("{op}: extra members emitted as {tail:?}, supplied as {want_tail:?} (all members: {keys:?})"), case.clone()));
+        }
+    }
+    fs
+}
+
 pub fn run(ctx: &Ctx) -> Result<Run, String> {
     let cs = cases(ctx.tier);
     let mut stats = par::sweep_cases(&cs, ctx.threads, |c, st| {
@@ -598,9 +665,15 @@ pub fn run(ctx: &Ctx) -> Result<Run, String> {
             stats.finding(f);
         }
     }
+    for case in client_extras_cases() {
+        stats.case(&case.to_string(), true, "client-data-through-client");
+        for f in client_extras_one(&case) {
+            stats.finding(f);
+        }
+    }
     let mut run = Run::from_stats(
         "exploration",
-        "creation and request options: all 256 presence patterns of the optional members x one presentation change at a time (each binary member as array / base64url +- padding / base64 +- padding, timeout and alg as number / numeric string / integral float / float string, an unknown scalar/object/array member at every position of every object, an unknown string for every enumeration, an unknown entry at every index of every lenient list incl. pubKeyCredParams entries with an unknown alg in every member order and with trailing unknown members); thorough: all pairs of changes on the full document. Oracle: Debug of the parsed value equals that of the canonical presentation (unknown enum = member absent, unknown list entry = entry absent). Plus base64url encode/decode identity on all byte strings up to length 2 (3 thorough) and patterned lengths 4..64 against an own RFC 4648 codec; every credential emitted by 72 register+authenticate ceremonies re-parsed from its JSON; CollectedClientData member order for 3 extra-data types x 16 orders of 0..3 unknown members x crossOrigin x type. Non-trivial = distinct case with at least one presentation change / non-empty input",
+        "creation and request options: all 256 presence patterns of the optional members x one presentation change at a time (each binary member as array / base64url +- padding / base64 +- padding, timeout and alg as number / numeric string / integral float / float string, an unknown scalar/object/array member at every position of every object, an unknown string for every enumeration, an unknown entry at every index of every lenient list incl. pubKeyCredParams entries with an unknown alg in every member order and with trailing unknown members); thorough: all pairs of changes on the full document. Oracle: Debug of the parsed value equals that of the canonical presentation (unknown enum = member absent, unknown list entry = entry absent). Plus base64url encode/decode identity on all byte strings up to length 2 (3 thorough) and patterned lengths 4..64 against an own RFC 4648 codec; every credential emitted by 72 register+authenticate ceremonies re-parsed from its JSON; CollectedClientData member order for 3 extra-data types x 16 orders of 0..3 unknown members x crossOrigin x type, and the client data emitted by Client::register/authenticate for five caller-supplied extras with a standard member's name at each position. Non-trivial = distinct case with at least one presentation change / non-empty input",
         true,
         stats,
     );
@@ -622,6 +695,9 @@ pub fn replay(ctx: &Ctx, case: &Value) -> Result<Vec<Finding>, String> {
     }
     if case.get("client_data").is_some() {
         return Ok(client_data_one(case));
+    }
+    if case.get("client_extras").is_some() {
+        return Ok(client_extras_one(case));
     }
     let _ = ctx;
     let c: Case = serde_json::from_value(case.clone()).map_err(|e| format!("bad C14 case: {e}"))?;
